@@ -182,10 +182,12 @@ class SDeque(collections.deque):
   def rotate(self, n=1):
     _pt("rotate", self, (n,))
     _D.rotate(self, n)
+    _res(n)
 
   def clear(self):
     _pt("clear", self)
     _D.clear(self)
+    _res(0)
 
   def __len__(self):
     _pt("len", self)
